@@ -675,6 +675,14 @@ def gen_twin(rng, N, CK):
         bfeats.add("pre")
     pre_txt = " ".join(pre)
 
+    # spelling of the path of the boxed tail call (derived from the twin number only, so the rest
+    # of the corpus does not depend on it)
+    box_pin = ["Box::pin", "std::boxed::Box::pin", "::std::boxed::Box::pin", "Box::pin", "std::boxed::Box::<_>::pin"][(int(N) * 2654435761 >> 7) % 5] if kind == "boxed" and not ret_form and not err_form else "Box::pin"
+    # (twins with ret/err keep the short spelling: if a changed macro stopped recognising a long
+    # one, those twins would stop compiling and the check could only report a build failure)
+    if kind == "boxed":
+        bfeats.add("boxpin:" + box_pin)
+
     def fn_text(name, with_attr, in_trait_impl=False):
         a = f"    #[tracing::instrument({attr_txt})]\n" if with_attr else ""
         allow = "    #[allow(unused_mut, unused_variables, unreachable_code, clippy::all)]\n"
@@ -686,7 +694,7 @@ def gen_twin(rng, N, CK):
         if kind == "boxed":
             s = " + Send" if send else ""
             return (f"{allow}{a}    {vis}fn {name}{gtxt}({ptxt}) -> Pin<Box<dyn Future<Output = {ret_ty}>{s} + 'a>> {{\n"
-                    f"        {pre_txt}\n        Box::pin(async move {{\n        {body_txt}\n        }})\n    }}\n")
+                    f"        {pre_txt}\n        {box_pin}(async move {{\n        {body_txt}\n        }})\n    }}\n")
         if kind == "impl_fut":
             return (f"{allow}{a}    {vis}fn {name}{gtxt}({ptxt}) -> impl Future<Output = {ret_ty}> + 'a {{\n"
                     f"        {pre_txt}\n        async move {{\n        {body_txt}\n        }}\n    }}\n")
